@@ -3,6 +3,8 @@ from . import COMMON_TB, FLOCQ_AXIOMS_NOTE
 _cmp = [
     dict(name="model", code=200, kind="eq"),
     dict(name="no_duplicate_members", code=801, kind="holds", predicate=True),
+    # outside the class excused by the known finding (decided in Coq: keys_okb) no record may have two members of one name
+    dict(name="nodup_strict", code=802, kind="holds", predicate=True),
 ]
 CONFIG = dict(
     harness="c08",
